@@ -22,7 +22,14 @@ pub fn spec_for(seed: u64, index: u64) -> SysSpec {
     if index >= PROBE_BASE {
         return probe_spec(index - PROBE_BASE).expect("probe index out of range");
     }
-    sysgen::generate(seed, "C02", index, &gen_cfg())
+    {
+        let mut spec = sysgen::generate(seed, "C02", index, &gen_cfg());
+        // bad states over inputs only, tied to a counter by a constraint
+        if index % 11 == 5 {
+            sysgen::input_bad_state_constraint(&mut spec, index / 11, false);
+        }
+        spec
+    }
 }
 
 // ---------------------------------------------------------------------------------------------
